@@ -19,7 +19,7 @@ CHUNK = 60
 PROBES = ['large_capture', 'record_with_zero_timestamp_and_debugid', 'pid_with_top_bit_set', 'abandoned_parse_before', 'crashed_parse_before', 'v3_with_logs_before', 'residue_before', 'duplicate_tid_in_map',
           'duplicate_pid_in_map', 'empty_map', 'pad_nonzero', 'pad_zero', 'arbitrary_record_bytes', 'name_19_bytes',
           'bytes_after_nul', 'same_kdbuf_object_reused', 'zero_records', 'first_record_leading_zero',
-          'other_request_pending_when_created', 'listings_read_in_turns', 'read_through_gzip_stream', 'same_stream_rewound_and_read_again']
+          'other_request_pending_when_created', 'listings_read_in_turns', 'read_through_gzip_stream', 'same_stream_rewound_and_read_again', 'stream_positioned_behind_a_prefix', 'parser_built_with_one_table']
 RULE = ('one run = a history of 1..7 operations on one long-lived table pair (full / abandoned / crashed / v3 parses, residue '
         'writes) followed by the judged complete parse of a seeded v2 file (thread map 0..8 entries with duplicate keys, pad '
         '0..4 KiB, 0..40 records from SimKernel or arbitrary bytes); non-trivial = the history left >= 1 table entry that the '
@@ -27,7 +27,7 @@ RULE = ('one run = a history of 1..7 operations on one long-lived table pair (fu
 SHAPE_MEASURE = 'distinct (tuple of history op kinds, which left residue, api used) shapes'
 ASSUMPTIONS = ['names are <= 19 bytes + NUL as the kernel strlcpy()s them; a first record of 64 zero bytes is never generated '
                '(indistinguishable from padding for any parser)']
-API = ('pk', 'kd_new', 'kd_same', 'kd_noargs', 'pk_rebind')
+API = ('pk', 'kd_new', 'kd_same', 'kd_noargs', 'pk_rebind', 'kd_only_names', 'kd_only_threads')
 
 
 def _gen_file(rng, version=2, arbitrary=None):
@@ -95,7 +95,7 @@ def generate(rng, index, tier):
         judged['zero_lead'] = rng.randint(1, 8)
     scn = {'history': hist, 'judged': judged, 'api': rng.pick(API)}
     if rng.chance(0.08):
-        scn['stream'] = rng.pick(['gzip', 'twice-raw', 'twice-bytes'])
+        scn['stream'] = rng.pick(['gzip', 'twice-raw', 'twice-bytes', 'offset', 'offset'])
     if rng.chance(0.12):
         # requests are lazy: another request on the same tables is created before or after the judged one is created and
         # is consumed completely before the judged one is pulled for the first time (the schedule of first pulls is seeded)
@@ -144,6 +144,12 @@ def execute(scn):
             return state['kd'].parse(rd)
         if api == 'pk_rebind':
             return pk.kevents(rd)
+        if api == 'kd_only_names':
+            state['kd'] = tool.kdbuf_mod.KdBufParser(pids_names=pn)          # the caller hands over one of the two tables only
+            return state['kd'].parse(rd)
+        if api == 'kd_only_threads':
+            state['kd'] = tool.kdbuf_mod.KdBufParser(threads_pids=tp)
+            return state['kd'].parse(rd)
         return kd_same.parse(rd)
     hist = []
     shape = []
@@ -251,6 +257,12 @@ def execute(scn):
         gc.collect()
         data_stream.seek(0)
         bump('probe:same_stream_rewound_and_read_again')
+    elif scn.get('stream') == 'offset' and not scn.get('pending'):
+        # the dump sits behind something else in the stream and the stream is handed over positioned at the dump's first byte
+        prefix = b'KTRA' + bytes(range(1, 29))
+        data_stream = SimReader(prefix + data)
+        data_stream.seek(len(prefix))
+        bump('probe:stream_positioned_behind_a_prefix')
     else:
         data_stream = None
     pending = scn.get('pending', []) if api in ('pk', 'kd_new', 'kd_same') else []
@@ -324,6 +336,17 @@ def execute(scn):
         if odata is not None:
             common.drain(lambda: other.parse(SimReader(odata)))
             bump('other_argless_object_parsed_after')
+    if api in ('kd_only_names', 'kd_only_threads') and state['kd'] is not None:
+        # the table the caller handed over is the caller's own object and is the one filled; the other one is the parser's
+        bump('probe:parser_built_with_one_table')
+        if api == 'kd_only_names':
+            tp = state['kd'].threads_pids
+            if state['kd'].pids_names is not pn:
+                pn = {'<the caller\'s table was replaced by a private one>': 1}
+        else:
+            pn = state['kd'].pids_names
+            if state['kd'].threads_pids is not tp:
+                tp = {'<the caller\'s table was replaced by a private one>': 1}
     if api == 'pk_rebind' and (kept_tp != old_tp or kept_pn != old_pn) and exc is None:
         viols_pre = {'tag': 'old-tables-overwritten', 'sig': 'rebind', 'detail': 'the pair of tables the caller kept from the previous request was modified by the next one'}
     else:
